@@ -142,6 +142,35 @@ class CallsMixin:
                 outs.append((s2, e))
             return outs
         ci = self.ct.classes.get(clsname)
+        init_ci = self.ct.resolve_method(clsname, '__init__')
+        if ci is not None and init_ci is not None and init_ci.node is not None and self.find_contract(init_ci, '__init__') is None \
+                and not self.ct.is_subclass(clsname, 'ObjectWithSchema'):
+            # a plain class whose constructor only stores attributes: allocate, then run the real __init__ body on the new object
+            init = init_ci.methods['__init__']
+            simple = all(isinstance(b, (ast.Assign, ast.Expr, ast.Pass)) for b in init.body)
+            if simple:
+                outs = []
+                for (s, pos, kw) in self.eval_args(node, st):
+                    h2, a = s.heap.new(Z.K_OBJ, klass=z3.IntVal(self.ct.cid(clsname)), dk=empty_keys(), dv=z3.K(Val, Z.NONE), dsize=z3.IntVal(0))
+                    obj = Z.mk_ref(a)
+                    params = [x.arg for x in init.args.args]
+                    env = {params[0]: obj}
+                    for pn, v in zip(params[1:], pos):
+                        s, v = self.materialize(s, v)
+                        env[pn] = v
+                    for k2, v in kw.items():
+                        env[k2] = v
+                    if len(env) != len(params):
+                        raise Unsupported("constructor arguments of " + clsname, node)
+                    saved = dict(self.static_cls)
+                    self.static_cls[params[0]] = clsname
+                    try:
+                        body = [b for b in init.body if not (isinstance(b, ast.Expr) and isinstance(b.value, ast.Constant))]
+                        for s2 in self.ex(body, s.with_heap(h2).clone(env=env)):
+                            outs.append((s2.clone(env=s.env), obj))
+                    finally:
+                        self.static_cls = saved
+                return outs
         if ci is not None and self.ct.resolve_method(clsname, '__init__') is None and not node.args and not node.keywords:
             # a class without constructor logic: a fresh attribute-less instance
             h2, a = st.heap.new(Z.K_OBJ, klass=z3.IntVal(self.ct.cid(clsname)), dk=empty_keys(), dv=z3.K(Val, Z.NONE), dsize=z3.IntVal(0))
@@ -365,7 +394,7 @@ class CallsMixin:
                 continue
             h = s.heap
             a = Z.addr(v)
-            if self.spec and not z3.is_true(z3.simplify(Z.is_s(v))) and not z3.is_false(z3.simplify(Z.is_s(v))):
+            if self.spec and not z3.is_true(z3.simplify(Z.is_s(v))):
                 # specification mode is total: dispatch on the tag inside the term
                 k = h.kind_of(a)
                 outs.append((s, Z.mk_i(z3.If(Z.is_s(v), z3.Length(Z.sv(v)),
